@@ -3,6 +3,8 @@ from __future__ import annotations
 
 from typing import Any, Dict, List
 
+import os
+
 import numpy as np
 
 from .. import esh, leanproj, mdh
@@ -198,7 +200,83 @@ def probe_cutoff_md(inp: Dict[str, Any]) -> Dict[str, Any]:
             "fields": {"kinds": ["cutoff_md"] if bad else [], "method": method, "a": a, "b": b}, "nontrivial": sep0 < cut < sep}
 
 
-PROBES = {"fragments": probe_fragments, "fragments_batched": probe_fragments_batched, "cutoff_md": probe_cutoff_md}
+def probe_cutoff_batch(inp: Dict[str, Any]) -> Dict[str, Any]:
+    """finite cutoff in a batch of systems with IDENTICAL species rows whose geometries lie on both sides of the cutoff (a separation scan evaluated as one
+    batch): every member ignores exactly ITS pairs beyond the cutoff, i.e. equals the same system computed alone, in either batch order"""
+    a, b, method, cut = inp["a"], inp["b"], inp["method"], float(inp["cutoff"])
+    sp = esh.settings(method=method, eps=1e-10, converger=[1], **{"pair_outer_cutoff": cut})
+    geoms = [_pair_geometry(a, b, R, inp.get("seed", 0)) for R in inp["Rs"]]
+    z = geoms[0][0]
+    xs = [g[1] for g in geoms]
+    alone = [esh.run(np.array([z]), np.array([x_]), sp) for x_ in xs]
+    bad = []
+    for order in ([list(range(len(xs))), list(range(len(xs)))[::-1]]):
+        r = esh.run(np.array([z] * len(xs)), np.array([xs[i] for i in order]), sp)
+        for pos, i in enumerate(order):
+            dE = abs(float(r["Etot"][pos] - alone[i]["Etot"][0]))
+            dF = float(np.abs(r["force"][pos] - alone[i]["force"][0]).max())
+            if dE > 1e-8 or dF > 1e-7:
+                bad.append(f"member at separation {inp['Rs'][i]} A (cutoff {cut} A), batch order {order}: differs from the same system alone by {dE:.3e} eV, {dF:.3e} eV/A")
+    return {"ok": not bad, "observed": bad[:4], "expected": "each batch member uses its own pair list", "predicate": "batch member == alone under a finite cutoff",
+            "fields": {"kinds": ["cutoff_batch"] if bad else [], "method": method, "a": a, "b": b}}
+
+
+_CHILD = r"""
+import sys, json, io, contextlib, warnings
+warnings.filterwarnings("ignore")
+import torch
+# the order an ordinary script uses: the package is imported first, double precision is selected afterwards
+from seqm.ElectronicStructure import Electronic_Structure
+from seqm.Molecule import Molecule
+from seqm.seqm_functions.constants import Constants
+torch.set_default_dtype(torch.float64)
+job = json.loads(sys.argv[1])
+out = []
+for z, x in job["systems"]:
+    sp = {"method": job["method"], "scf_eps": 1e-11, "scf_converger": [1], "sp2": [False]}
+    with contextlib.redirect_stdout(io.StringIO()):
+        m = Molecule(Constants(), sp, torch.tensor([x], dtype=torch.float64), torch.tensor([z], dtype=torch.int64))
+        Electronic_Structure(sp)(m)
+    out.append(float(m.Etot[0]))
+print("RESULT " + json.dumps(out))
+"""
+
+
+def probe_far_fresh_process(inp: Dict[str, Any]) -> Dict[str, Any]:
+    """the long-distance law in a FRESH process that imports the package before it selects double precision (the order of an ordinary user script; this
+    harness selects double precision first): E_AB - E_A - E_B keeps following R^-3 out to 500 A - the 1/R monopole terms of the core-core, core-electron
+    and electron-electron parts cancel only if all of them use the same constants to the last digit"""
+    import json
+    import subprocess
+    import sys
+
+    from ..core import REPO
+    a, b, method = inp["a"], inp["b"], inp["method"]
+    Rs = [64.0, 128.0, 256.0, 500.0]
+    systems = []
+    for R in Rs:
+        z, x, frag, (za_, xa), (zb_, xb) = _pair_geometry(a, b, R, inp.get("seed", 0))
+        systems += [(list(map(int, z)), np.asarray(x).tolist()), (list(map(int, za_)), np.asarray(xa).tolist()), (list(map(int, zb_)), np.asarray(xb).tolist())]
+    env = dict(os.environ, PYTHONPATH=REPO, OMP_NUM_THREADS="2")
+    p = subprocess.run([sys.executable, "-c", _CHILD, json.dumps({"method": method, "systems": systems})], capture_output=True, text=True, env=env, timeout=900)
+    lines = [ln for ln in p.stdout.splitlines() if ln.startswith("RESULT ")]
+    if not lines:
+        raise RuntimeError("child failed: " + p.stderr[-800:])
+    E = json.loads(lines[-1][7:])
+    deltas = [E[3 * i] - E[3 * i + 1] - E[3 * i + 2] for i in range(len(Rs))]
+    c3 = [d * R ** 3 for d, R in zip(deltas, Rs)]
+    bad = []
+    ref = c3[0]
+    for R, c in zip(Rs[1:], c3[1:]):
+        # falls off at least as fast as R^-3: the R^3-scaled interaction never grows (0.05 eV A^3 = round-off of the three energies at 500 A);
+        # for a pair with a sizeable dipole-dipole term it also keeps its value and sign
+        if abs(c) > 1.6 * abs(ref) + 0.05 or (abs(ref) > 0.5 and c / ref < 0.6):
+            bad.append(f"(E_AB - E_A - E_B) R^3 = {c:.3f} eV A^3 at {R} A against {ref:.3f} at {Rs[0]} A: the interaction does not fall off like R^-3 or faster")
+    return {"ok": not bad, "observed": bad[:3] or [f"R^3-scaled interaction {['%.3f' % c for c in c3]}"], "expected": "R^-3 law (or faster) out to 500 A in a fresh process",
+            "predicate": "|c(R)| <= 1.6 |c(64 A)| + 0.05, same sign and size for polar pairs", "fields": {"kinds": ["far_fresh_process"] if bad else [], "method": method}}
+
+
+PROBES = {"fragments": probe_fragments, "fragments_batched": probe_fragments_batched, "cutoff_md": probe_cutoff_md, "cutoff_batch": probe_cutoff_batch, "far_fresh_process": probe_far_fresh_process}
 
 
 def gen_cases(ctx: Ctx):
@@ -206,7 +284,9 @@ def gen_cases(ctx: Ctx):
     pool = ["h2o", "nh3", "ch4", "hf", "hcn", "ch2o", "h2", "co", "hcl", "h2s"]
     methods = ["AM1", "MNDO", "PM3", "PM6_SP"]
     n = 16 if ctx.thorough else 5
-    cases = [{"a": "h2o", "b": "h2o", "method": "AM1", "seed": 1}]
+    cases = [{"a": "h2o", "b": "h2o", "method": "AM1", "seed": 1},
+             # a polar pair under a PM6-family method in every run (its core-core term has its own code path; the 1/R monopole terms must cancel to round-off)
+             {"a": ["h2o", "hf", "nh3"][ctx.seed % 3], "b": "h2o", "method": "PM6_SP", "seed": int(rng.integers(0, 10**6))}]
     for i in range(n):
         a, b = [str(v) for v in rng.choice(pool, size=2)]
         cases.append({"a": a, "b": b, "method": methods[i % 4], "seed": int(rng.integers(0, 10**6))})
@@ -224,6 +304,11 @@ def gen_extra(ctx: Ctx):
     for i in range(5 if ctx.thorough else 2):
         a, b = [("nh3", "h2o"), ("ch4", "hf")][ctx.seed % 2] if i == 0 else [str(v) for v in rng.choice(pool, size=2, replace=False)]
         out.append(("fragments_batched", {"a": a, "b": b, "method": ["AM1", "PM3", "MNDO"][(i + ctx.seed) % 3], "R": float(rng.choice([25.0, 30.0, 60.0])), "seed": int(rng.integers(0, 10**6))}))
+    for i in range(3 if ctx.thorough else 1):
+        out.append(("far_fresh_process", {"a": ["h2o", "hf", "nh3"][(i + ctx.seed) % 3], "b": "h2o", "method": ["PM6_SP", "AM1", "PM3"][i % 3], "seed": int(rng.integers(0, 10**6))}))
+    for i in range(3 if ctx.thorough else 1):
+        a, b = [("h2o", "h2o"), ("hf", "h2o"), ("nh3", "ch4")][(i + ctx.seed) % 3]
+        out.append(("cutoff_batch", {"a": a, "b": b, "method": ["AM1", "PM3", "MNDO"][(i + ctx.seed) % 3], "cutoff": float(rng.choice([9.0, 10.0])), "Rs": [6.0, 30.0, 12.0][: 2 + i % 2], "seed": int(rng.integers(0, 10**6))}))
     for i in range(3 if ctx.thorough else 1):
         a, b = [("h2o", "h2o"), ("hf", "h2o"), ("nh3", "co")][(i + ctx.seed) % 3]
         out.append(("cutoff_md", {"a": a, "b": b, "method": ["AM1", "PM3"][(i + ctx.seed) % 2], "cutoff": float(rng.choice([9.0, 10.0])), "R0": 7.5, "seed": int(rng.integers(0, 10**6))}))
